@@ -273,8 +273,23 @@ class Splitter:
             d = self.lin(a - b)
             if entails(facts, d) and entails(facts, -d):
                 return True
-            # floordiv(A, B) is the constant k when k*B <= A <= k*B + B - 1
+            # symbols that the facts force to be equal are identified
+            # (products like x*t and y*t are distinct symbols otherwise)
             diff = a - b
+            base = sorted({at for at in _atoms_deep(diff)}, key=repr)
+            sub = {}
+            for i_, x in enumerate(base):
+                if x in sub:
+                    continue
+                for y in base[i_ + 1:]:
+                    if y in sub:
+                        continue
+                    d2 = self.lin(Poly.atom(x) - Poly.atom(y))
+                    if entails(facts, d2) and entails(facts, -d2):
+                        sub[y] = Poly.atom(x)
+            if sub and diff.subst(sub) == Poly():
+                return True
+            # floordiv(A, B) is the constant k when k*B <= A <= k*B + B - 1
             for at in sorted(diff.atoms(), key=repr):
                 if at[0] == "app" and at[1] == "floordiv" and len(
                         at[2]) == 2:
@@ -314,6 +329,15 @@ def _show(v: Any) -> str:
     if isinstance(v, Poly):
         return show(v)
     return repr(v)
+
+
+def _atoms_deep(p: Poly) -> set:
+    """The atoms occurring as factors of the monomials of `p`."""
+    out = set()
+    for mono in p.terms:
+        for at, _e in mono:
+            out.add(at)
+    return out
 
 
 def describe(trail: tuple) -> str:
